@@ -18,7 +18,7 @@ EXPLANATION = (
     "error into a success are the tabled EOF conversions (C14.R1b)."
     " R1 also covers the eager BCF reader (genuine defect F25, repaired; the site had been mis-triaged as safe in the error-to-success table); (R6) the bgzf read_nonempty_block_with returns a nonzero length only for a block read by that call, so the direct-read path cannot report bytes it did not produce at the end of a stream without EOF block (genuine defect F26, repaired)."
     " (R7) a truncated text stream ends the scan: every loop around fill_buf has an exit edge controlled by the emptiness of the window."
-    " (R8) a read error inside an iterator chain reaches the caller: no Result is consumed as an iterator (flat_map over a Result, Result::into_iter), which would turn a cut-off list into a shorter list and Ok. (R9) the read_exact contract: every success exit of a hand-written read_exact (BGZF reader, multithreaded reader, default_read_exact) passes a whole-buffer test on the destination or a read_exact delegation.")
+    " (R8) a read error inside an iterator chain reaches the caller: no Result is consumed as an iterator (flat_map over a Result, Result::into_iter), which would turn a cut-off list into a shorter list and Ok. (R9) the read_exact contract: every success exit of a hand-written read_exact (BGZF reader, multithreaded reader, default_read_exact) passes a whole-buffer test on the destination or a read_exact delegation. (R10) a block that failed to parse is emptied and the position advanced before the error is returned (genuine defect F63, repaired).")
 ASSUMPTIONS = ["read_exact reports UnexpectedEof on a short source (std/tokio contract)",
                "the 'never panics' clause is C15's inventory restricted to these readers"]
 NOT_DECIDED = ["that the records yielded before the error equal the originally written prefix (needs values)",
@@ -214,3 +214,41 @@ def run(ctx):
                        "default_read_exact) is reached only through a test that the WHOLE buffer was filled or a read_exact delegation; "
                        "'at least one byte' is the contract of read, and at the end of a cut file it reports a partly filled buffer as read")
     a5.read_exact_contract_rule(ctx, "C13.R9", 3)
+
+    ctx.rule("C13.R10", "a block that failed to parse is never served: on the Err edge of the block parser the single-threaded BGZF reader empties "
+                        "the block (Data::resize(0)) and advances its running position over the consumed frame before it returns the error — "
+                        "otherwise the next read hands out the rejected bytes and every later virtual position is too small (genuine defect "
+                        "F63, repaired)")
+    f10 = ctx.anchor("C13.R10", "noodles_bgzf::io::reader::Reader::<R>::read_nonempty_block_with")
+    if f10 is not None:
+        ctx.saw_fn(f10)
+        done = False
+        for b10, c10 in f10.calls():
+            if not re.search(r"ops::function::FnMut::call_mut$", c10.get("f") or ""):
+                continue
+            nxt = c10.get("t")
+            t10 = f10.blocks[nxt]["t"] if nxt is not None else None
+            # `f(..)?`: the result goes through Try::branch first (Break = the error edge)
+            if t10 and t10[0] == "call" and (t10[1].get("f") or "").endswith("Try>::branch") and t10[1].get("t") is not None:
+                t10 = f10.blocks[t10[1]["t"]]["t"]
+            if not t10 or t10[0] != "sw":
+                continue
+            vals = dict((v, tg) for v, tg in t10[2])
+            err_t = vals.get(1, t10[3])
+            resets = {b for b, c in f10.calls() if re.search(r"io::block::data::Data::resize$", c.get("f") or "") and len(c["args"]) >= 2
+                      and C.eval_const(f10, c["args"][1]) == 0}
+            moves = {bi for bi, blk in enumerate(f10.blocks) if not blk.get("cu") for st in blk["s"]
+                     if st[0] == "=" and any(isinstance(p_, list) and p_[0] == "f" and p_[2] == "position" for p_ in st[1][1])}
+            rets = set(C.return_blocks(f10))
+            open1 = C.reachable(f10, err_t, removed=resets) & rets if err_t not in resets else set()
+            open2 = C.reachable(f10, err_t, removed=moves) & rets if err_t not in moves else set()
+            done = True
+            if not open1 and not open2:
+                ctx.ok("C13.R10", f10.key, "the Err edge of the block parser passes resize(0) and the position update", f10.loc(b10))
+            else:
+                ctx.violation("C13.R10", "C13.R10/rejected-block-served/" + f10.key,
+                              "read_nonempty_block_with returns the block parser's error without %s: after a CRC mismatch the next read serves "
+                              "the rejected block's bytes / later virtual positions are too small by the frame's size" % (
+                                  "emptying the block" if open1 else "advancing its position over the frame"), f10.loc(b10))
+        if not done:
+            ctx.violation("C13.R10", "C13.R10/ANCHOR-MISSING/read_nonempty_block_with/parser-call", "no call of the block parser closure found", f10.loc())
